@@ -56,6 +56,9 @@ class GenE:
     def __init__(self, rng, cfg, pipes, drv):
         self.rng, self.cfg, self.pipes, self.drv = rng, cfg, pipes, drv
         self.sc = {"layer": "E", "cfg": cfg, "pipes": pipes, "steps": []}
+        if rng.random() < 0.35:
+            # every assignment of the scenario carries these flags (as a REST peer may send them): admission and accounting must not depend on them
+            self.sc["flags"] = {"is_resume": rng.random() < 0.75, "force_run": rng.random() < 0.4}
         self.q, self.g = quantum(cfg["tps"])
         self.order = Impl(self.sc).order
         drv.send("reset")
@@ -298,6 +301,90 @@ def gen_suspend_oversell(seed, drv):
                     g.count("assignment_with_suspension_" + kind)
                     nxt += 1
         g.tick()
+    g.sc["order"] = g.order
+    return g
+
+
+def gen_drain_during_writeout(seed, drv):
+    """the last running container of a pool ends while another one is still being written out: the pool has no running container but is not idle --
+    the suspending container keeps its whole allocation until its write-out ends"""
+    rng = random.Random(seed)
+    tps = rng.choice([1, 2, 4])
+    cfg = {"tps": tps, "multi": True, "over": rng.random() < 0.3, "npools": rng.choice([1, 2]), "cpus": rng.choice([2, 4, 8]), "ram": "64"}
+    k = rng.randint(1, 2)
+    pipes = [{"prio": 3, "ops": [simple_op(tps, k, fixed=F(1, 8)), simple_op(tps, rng.randint(2, 5), fixed=F(1, 8), parents=[0])]},
+             {"prio": 2, "ops": [simple_op(tps, k + rng.randint(1, 3), fixed=F(1, 8))]}]
+    g = _mk(rng, cfg, pipes, drv)
+    q, gg = g.q, g.g
+    pool = rng.randrange(cfg["npools"])
+    long_alloc = F(gg, q) * rng.randint(4, 9)              # a write-out of that many ticks
+    g.assign(pool, 1, long_alloc if long_alloc <= 48 else 32, sensible_refs(g, 0, True))
+    g.assign(pool, 1, 1, sensible_refs(g, 1, True))
+    for t in range(k + 16):
+        if g.dead:
+            break
+        for pi, p in enumerate(g.pools()):
+            for c in p["A"]:
+                if c[4]:
+                    g.emit(["suspend", pi, c[0]]); g.count("suspend_req_legal")
+        before = [(len(p["A"]), len(p["S"])) for p in g.pools()]
+        o = g.tick()
+        if o["ok"] and any(b[0] > 0 and len(p["A"]) == 0 and len(p["S"]) > 0 for b, p in zip(before, o["state"]["pools"])):
+            g.count("pool_drained_while_a_write_out_is_in_progress")
+    g.sc["order"] = g.order
+    return g
+
+
+def gen_oom_fast_clock(seed, drv):
+    """the OOM checks at tick rates above 1000/s: growing containers with tiny allocations cross their own limit, and the pool its capacity, in consecutive
+    ticks (odd and even ones) of a clock that ticks several times per millisecond; every single tick must end with everyone within limits"""
+    rng = random.Random(seed)
+    tps = rng.choice([2048, 4096])
+    over = rng.random() < 0.5
+    cfg = {"tps": tps, "multi": True, "over": over, "npools": 1, "cpus": 16, "ram": fstr(rng.choice([F(1, 8), F(1, 4), 1]))}
+    pipes = [{"prio": 3, "ops": [simple_op(tps, rng.randint(0, 3), read="5")]} for _ in range(rng.randint(3, 7))]
+    g = _mk(rng, cfg, pipes, drv)
+    started = 0
+    for t in range(24):
+        if g.dead:
+            break
+        while started < len(pipes) and rng.random() < 0.5 and g.pools()[0]["ac"] >= 1:
+            ram = F(rng.randint(1, 6), 64)
+            if not over:
+                ram = min(ram, F(g.pools()[0]["ar"], g.q))
+                if ram <= 0:
+                    break
+            g.assign(0, 1, ram, sensible_refs(g, started, True))
+            started += 1
+        g.tick()
+    g.count("fast_clock_oom_scenarios")
+    g.sc["order"] = g.order
+    return g
+
+
+def gen_suspend_overcommitted(seed, drv):
+    """memory overcommit on and the containers of a pool together hold more RAM than the pool has (free RAM negative); one of them is suspended: when its
+    write-out ends exactly its allocation comes back -- free RAM may well stay negative"""
+    rng = random.Random(seed)
+    tps = rng.choice([1, 2, 4])
+    ram_pool = rng.choice([8, 16])
+    cfg = {"tps": tps, "multi": True, "over": True, "npools": 1, "cpus": 8, "ram": fstr(ram_pool)}
+    n = rng.randint(3, 4)
+    pipes = [{"prio": 3, "ops": [simple_op(tps, rng.randint(1, 2), fixed=F(1, 8)), simple_op(tps, rng.randint(6, 12), fixed=F(1, 8), parents=[0])]} for _ in range(n)]
+    g = _mk(rng, cfg, pipes, drv)
+    for pid in range(n):
+        g.assign(0, 1, ram_pool, sensible_refs(g, pid, True))          # each container is allowed the whole pool
+    asked = 0
+    for t in range(20):
+        if g.dead:
+            break
+        for c in g.pools()[0]["A"]:
+            if c[4] and asked < 2:
+                g.emit(["suspend", 0, c[0]]); g.count("suspend_req_legal")
+                asked += 1
+        o = g.tick()
+        if o["ok"] and o["state"]["pools"][0]["ar"] < 0 and o["state"]["pools"][0]["D"]:
+            g.count("write_out_ended_with_free_ram_still_negative")
     g.sc["order"] = g.order
     return g
 
